@@ -235,6 +235,12 @@ def runSMap (K : Kernel X Wt α μ) (cfg : SearchCfg μ θ) (th0 : θ)
         | none => "-"))) :: go s cs
   go {} calls
 
+/-- `fit(X, y, max_iter = k)` on a fresh SimpleARTMAP: snapshot after the last epoch -/
+def runSMapEpochs (K : Kernel X Wt α μ) (cfg : SearchCfg μ θ) (th0 : θ)
+    (showW : Wt → String) (k : Nat) (xs : List X) (ys : List Nat) : String :=
+  let s := smapFitEpochs K cfg th0 k (xs.zip ys)
+  s!"{showState showW s.a} map={showMap s.map} lb={showNats s.labelsB}"
+
 end
 
 /-! ### table-driven kernel: activations and match values recorded from the
@@ -303,13 +309,23 @@ def opHist (line : String) : Option String := do
       let eps ← parseRat eps
       let vt ← parseVetoTab vt
       let K := fuzzyKernel (← parseRat alpha) (← parseRat beta) (← parseRat d)
-      let calls ← callStrs.mapM (parseCall (parseMat (α := Rat)))
       let rho ← parseRat rho
-      if kind == "base" then
-        some (" # ".intercalate (runBase K (ratCfg mode eps) rho vt showVec calls))
-      else if kind == "smap" then
-        some (" # ".intercalate (runSMap K (ratCfg mode eps) rho showVec calls))
-      else none
+      if kind == "smapk" then
+        -- one call `K X y`: SimpleARTMAP.fit with max_iter = K on a fresh estimator
+        match callStrs with
+        | [c] => match c.splitOn " " with
+          | [k, xs, ys] =>
+            some (runSMapEpochs K (ratCfg mode eps) rho showVec (← k.toNat?) (← parseMat (α := Rat) xs)
+              (← (splitList ys).mapM String.toNat?))
+          | _ => none
+        | _ => none
+      else
+        let calls ← callStrs.mapM (parseCall (parseMat (α := Rat)))
+        if kind == "base" then
+          some (" # ".intercalate (runBase K (ratCfg mode eps) rho vt showVec calls))
+        else if kind == "smap" then
+          some (" # ".intercalate (runSMap K (ratCfg mode eps) rho showVec calls))
+        else none
     | [kind, "sph", mode, eps, vt, rho, alpha, beta, rhat] =>
       -- HypersphereART on IEEE doubles (bit patterns): same definitions, `Float` instance
       let mode ← parseMT mode
